@@ -603,9 +603,6 @@ example : readerLoop 40 {} [.chunk [0x00], .pend, .chunk [0x02, 0xaa], .chunk [0
 
 /-! ## 6. The error code at the two callers -/
 
-/-- H3_FRAME_ERROR, RFC 9114 §8.1 -/
-def H3_FRAME_ERROR : Nat := 0x0106
-
 /-- Corollary at the two call sites of the frame layer (request stream:
     `handle_frame_stream_error_on_request_stream`; control stream: `ConnectionInner::poll_control`).
 
@@ -622,25 +619,25 @@ def H3_FRAME_ERROR : Nat := 0x0106
 
     Not covered, on purpose: a SETTINGS payload that ends inside an entry is answered
     `Settings(Malformed)`, which `got_frame_error` turns into H3_SETTINGS_ERROR — reading R-02s,
-    the `example` below. -/
+    the `example` below.  (0x0106 = H3_FRAME_ERROR, RFC 9114 §8.1.) -/
 theorem C02_frame_error_code_at_callers :
     (∀ (w : Varint.Bytes), WF w → ∀ ty r1 len r2, rfcDecode w = some (ty, r1) → ty ≠ 0x41 →
       rfcDecode r1 = some (len, r2) → ty ≠ 0x0 → len ≤ r2.length → isKnown ty = true →
       classify ty (r2.take len) = .malformed → H3.Frame.decode w = .error .malformed) ∧
     (∀ {σ : Type} (st : H3.ReqRecv.St σ),
-      (H3.ReqRecv.fsErr st (.errProto .malformed)).1 = .errConn (st.env.cell.getD H3_FRAME_ERROR) ∧
-      (H3.ReqRecv.fsErr st .errEnd).1 = .errConn (st.env.cell.getD H3_FRAME_ERROR) ∧
-      (H3.ReqRecv.fsErr st (.errProto .malformed)).2.env.cell = some (st.env.cell.getD H3_FRAME_ERROR) ∧
-      (H3.ReqRecv.fsErr st .errEnd).2.env.cell = some (st.env.cell.getD H3_FRAME_ERROR)) ∧
+      (H3.ReqRecv.fsErr st (.errProto .malformed)).1 = .errConn (st.env.cell.getD 0x0106) ∧
+      (H3.ReqRecv.fsErr st .errEnd).1 = .errConn (st.env.cell.getD 0x0106) ∧
+      (H3.ReqRecv.fsErr st (.errProto .malformed)).2.env.cell = some (st.env.cell.getD 0x0106) ∧
+      (H3.ReqRecv.fsErr st .errEnd).2.env.cell = some (st.env.cell.getD 0x0106)) ∧
     (∀ c : H3.Control.Conn,
-      H3.Control.classify c (.proto .malformed) = .error H3_FRAME_ERROR ∧
-      H3.Control.classify c .truncated = .error H3_FRAME_ERROR) ∧
+      H3.Control.classify c (.proto .malformed) = .error 0x0106 ∧
+      H3.Control.classify c .truncated = .error 0x0106) ∧
     (H3.ReqRecv.frameErrCode .malformed = Gen.FrameErrCodes.code (H3.GenAgree.Req.protoOf .malformed) ∧
       H3.Control.protoCode .malformed = Gen.FrameErrCodes.code (H3.GenAgree.Ctl.protoOf .malformed) ∧
       Gen.FrameErrCodes.decoder .malformed = .proto (H3.GenAgree.Req.protoOf .malformed) ∧
-      Gen.FrameErrCodes.code .malformed = H3_FRAME_ERROR ∧
-      Gen.FrameErrCodes.requestStreamUnexpectedEnd = H3_FRAME_ERROR ∧
-      Gen.CtlArms.onTruncated = .err H3_FRAME_ERROR ∧ Gen.CtlArms.onProto = .gotFrameError) := by
+      Gen.FrameErrCodes.code .malformed = 0x0106 ∧
+      Gen.FrameErrCodes.requestStreamUnexpectedEnd = 0x0106 ∧
+      Gen.CtlArms.onTruncated = .err 0x0106 ∧ Gen.CtlArms.onProto = .gotFrameError) := by
   refine ⟨?_, ?_, ?_, ?_⟩
   · intro w hwf ty r1 len r2 h1 hty h2 hd hle hk hc
     have h := (((C02_frame_decode_is_segment w hwf).2 ty r1 h1 hty).2 len r2 h2).2.2.2 hd hle
@@ -652,7 +649,7 @@ theorem C02_frame_error_code_at_callers :
     have he := (H3.GenAgree.Req.fsErr_agrees st).2.2
     rw [hp, he]
     cases hc : st.env.cell <;>
-      simp [H3.ReqRecv.connErr, hc, H3_FRAME_ERROR, Gen.FrameErrCodes.code, H3.GenAgree.Req.protoOf,
+      simp [H3.ReqRecv.connErr, hc, Gen.FrameErrCodes.code, H3.GenAgree.Req.protoOf,
         Gen.FrameErrCodes.requestStreamUnexpectedEnd]
   · intro c
     exact ⟨rfl, rfl⟩
